@@ -57,9 +57,9 @@ class Exact:
 def check_welford(tr, ex, where):
     n = ex.n
     m, v = ex.mean(), ex.var()
-    got_m, got_v = tr.mean, tr.var
-    if not (math.isfinite(got_m) and math.isfinite(got_v) and math.isfinite(tr.std)):
-        bad('not-finite', f"{where}: mean={got_m!r} var={got_v!r} std={tr.std!r}")
+    got_m, got_v, got_s = tr.mean, tr.var, tr.std
+    if isinstance(got_s, complex) or isinstance(got_v, complex) or not (math.isfinite(got_m) and math.isfinite(got_v) and math.isfinite(got_s)):
+        bad('not-finite', f"{where}: mean={got_m!r} var={got_v!r} std={got_s!r} (finite real numbers expected)")
     if abs(F(got_m) - m) > C * n * F(EPS) * F(ex.maxabs):
         bad('welford-mean-error', f"{where}: mean={got_m!r}, exact {float(m)!r}; error {float(abs(F(got_m) - m)):.3e} exceeds "
                                   f"{C} n eps max|v| = {float(C * n * F(EPS) * F(ex.maxabs)):.3e}")
@@ -131,9 +131,16 @@ def run_task(task):
             vals = family_stream(mag, off, ordering, n)
             tr, ex = WelfordTracker(), Exact()
             marks = {n, n // 2, n // 10, 10, 100}
+            import copy as _copy
+            import pickle as _pickle
             for i, v in enumerate(vals, start=1):
                 tr.update(v)
                 ex.add(v)
+                # checkpoint / restore mid-stream: the stream continues on a pickle round trip, later on a deep copy
+                if i == n // 3:
+                    tr = _pickle.loads(_pickle.dumps(tr))
+                elif i == (2 * n) // 3:
+                    tr = _copy.deepcopy(tr)
                 if i in marks:
                     n_checked += 1
                     check_welford(tr, ex, f"WelfordTracker after {i} values of the stream (spread {mag:g}, offset "
@@ -147,8 +154,14 @@ def run_task(task):
             da, t = decimal.Decimal(alpha), decimal.Decimal(0)
             mx = 0.0
             marks = {n, n // 2, n // 10, 10, 100}
+            import copy as _copy
+            import pickle as _pickle
             for i, v in enumerate(vals, start=1):
                 tr.update(v)
+                if i == n // 3:
+                    tr = _pickle.loads(_pickle.dumps(tr))
+                elif i == (2 * n) // 3:
+                    tr = _copy.deepcopy(tr)
                 t = (1 - da) * t + da * decimal.Decimal(v)
                 mx = max(mx, abs(v))
                 if i in marks:
@@ -376,7 +389,9 @@ def main(rep):
         if ex:
             rep.sample({'kind': kind, 'task': ex['task'], 'checkpoints': ex['n']})
     rep.note(tasks=len(tasks), constant=C)
-    rep.assume("'a small multiple' is read as 8 (classical bounds: n u kappa for Welford's variance, about n u for the "
+    rep.assume("long streams continue on a pickle round trip of the tracker after n/3 values and on a deep copy after 2n/3 "
+               "(checkpoint / restore); the short streams copy the tracker at every step",
+               "'a small multiple' is read as 8 (classical bounds: n u kappa for Welford's variance, about n u for the "
                "mean, u = eps/2); explainer runs within 64 eps scale t (static) / 64 eps scale / alpha (dynamic)",
                "the bounds are checked on the enumerated streams only - not a proof for all streams up to 1e6")
     return rep.finish(
